@@ -94,13 +94,12 @@ pub trait AggValidFinal<T: IsNone>: Vec1View<T> {
             let corr: f64 = self
                 .titer()
                 .vcorr_pearson(self.titer().vshift(life as i32, None), min_periods);
-            if corr < 0.5 {
-                (last_n, n) = (last_n, life);
-            } else if corr > 0.5 {
-                (last_n, n) = (life, n);
+            if corr > 0.5 {
+                last_n = life;
             } else {
+                // at or below 0.5, or undefined: not above, the same convention as the
+                // doubling search. Keep bisecting so that the first such lag is returned.
                 n = life;
-                break;
             }
         }
         n
